@@ -100,7 +100,9 @@ class Harness:
             except interp.PathAbort:
                 continue
             sc = max([1.0] + [abs(x) for x in a if x == x and not math.isinf(x)])
-            for x, y in zip(a, b):
+            for oi, (x, y) in enumerate(zip(a, b)):
+                if type(y).__name__ == "Undef":
+                    raise UninitOutput("%s: output %d is read from memory the real code never initialised (input %r)" % (fn, oi, inp), fn, inp, a)
                 if (x != x) and (y != y):
                     continue
                 if math.isinf(x) and math.isinf(y):
@@ -109,6 +111,12 @@ class Harness:
                     raise RuntimeError("translation validation failed for %s on %r: native %r vs symx %r" % (fn, inp, a, b))
             cnt += 1
         return cnt
+
+
+class UninitOutput(Exception):
+    def __init__(self, msg, fn, inp, native):
+        super().__init__(msg)
+        self.fn, self.inp, self.native_out = fn, inp, native
 
 
 def load_known():
@@ -252,6 +260,12 @@ def _run_job(job):
         r.paths, r.steps = 1, 1
         r.violations.append({"key": "native-crash/%s" % getattr(fn, "__name__", "?"), "what": "the natively built wrapper crashed: %s" % str(e)[:400],
                              "replay": {"kind": "memory", "key": "native-crash", "what": str(e)[:400]}})
+    except UninitOutput as e:
+        r = Result()
+        r.add_raw("outputs-initialised", "violated", str(e)[:300])
+        r.paths, r.steps = 1, 1
+        r.violations.append({"key": "uninitialised-output/%s" % e.fn, "what": "the wrapper returns uninitialised memory: %s" % str(e)[:400],
+                             "replay": {"kind": "memory", "key": "uninitialised-output/%s" % e.fn, "what": str(e)[:400], "fn": e.fn, "inputs": e.inp}})
     except Exception as e:
         r = Result()
         r.errors.append("job %s%r: %s\n%s" % (getattr(fn, "__name__", "?"), tuple(str(a)[:40] for a in args), e, traceback.format_exc()[-2500:]))
